@@ -15,7 +15,9 @@ var verifC10Grid = []struct {
 	b   uint32
 	thr float64
 	ms  uint32
-}{{1, 10, 1000}, {3, 7, 1000}, {1, 1, 1000}, {2, 1000, 500}, {1, 0.75, 0}, {5, 5.5, 2000}}
+}{{1, 10, 1000}, {3, 7, 1000}, {1, 1, 1000}, {2, 1000, 500}, {1, 0.75, 0}, {5, 5.5, 2000},
+	// a huge batch over a long statistic interval: batch * interval (ns) does not fit 63 bits
+	{4000000000, 4200000000, 10000}}
 
 func verifIntervalOf(g int) int64 {
 	// measured through the real code: from a far future schedule the add path moves it by exactly one interval
@@ -42,6 +44,8 @@ func VerifC10Seq() {
 	}
 	iv := verifIntervalOf(g)
 	rt.Assert(iv >= 1 && iv <= int64(1000000*uint64(map[bool]uint32{true: 1000, false: p.ms}[p.ms == 0])), "the pacing interval is positive and at most the statistic interval")
+	ivNs := float64(1000000 * uint64(map[bool]uint32{true: 1000, false: p.ms}[p.ms == 0]))
+	rt.Assert(float64(iv) >= float64(p.b)/p.thr*ivNs-1 && float64(iv) <= float64(p.b)/p.thr*ivNs+1, "the pacing interval is batch/threshold of the statistic interval (to the nanosecond)")
 	maxq := int64(rt.U64n("maxq", 40))
 	last := int64(rt.U64n("last", 60))
 	c := NewThrottlingChecker(nil, 0, p.ms)
